@@ -89,6 +89,9 @@ def main(argv):
     known = load_known()
     open_known = {k["class"]: k for k in known.get("open", []) if k["property"] == prop}
 
+    phases = {}
+    def mark(name, _t=[time.time()]):
+        now = time.time(); phases[name] = round(now - _t[0], 1); _t[0] = now
     out_lines = []          # VIOLATION / KNOWN-FINDING lines
     broken = []             # (kind, name, message)
     import rs2v
@@ -100,6 +103,7 @@ def main(argv):
     for n, e in gen_errs:
         broken.append(("broken-translation", f"Gen/{n}.v", e))
 
+    mark('translate')
     # 2. prove (Run first: it only needs Model+Spec; then the property theorems)
     run_vo = f"theories/Run/{prop}.vo"
     props_vo = f"theories/Props/{prop}.vo"
@@ -131,6 +135,7 @@ def main(argv):
         if discharged >= len(theorems):
             discharged = len(theorems) - 1
 
+    mark('prove')
     # 3. audit
     bad = audit_sources()
     for b in bad:
@@ -149,6 +154,7 @@ def main(argv):
         except subprocess.TimeoutExpired:
             coqchk_note = "coqchk timed out (not counted)"
 
+    mark('audit')
     # 4. implementation
     ok, msg = build_harness()
     if not ok:
@@ -159,6 +165,7 @@ def main(argv):
     if hasattr(mod, "prepare"):
         mod.prepare(ctx)
 
+    mark('build-harness')
     # 5. cases
     if replay_file:
         rp = json.load(open(replay_file))
@@ -176,6 +183,7 @@ def main(argv):
     elif not run_ok:
         pass
 
+    mark('cases')
     # 6. decide
     failing = []      # property violated on the implementation, not a known class
     knownhits = {}
@@ -243,6 +251,7 @@ def main(argv):
         out_lines.append(f"KNOWN-FINDING: property={prop} {open_known[kclass]['what_fails']} "
                          f"[class {kclass}; e.g. {v.get('show') or v['case']}]")
 
+    mark('decide')
     # 7. evidence
     samples = []
     for v in verdicts[:3] + verdicts[-2:]:
@@ -271,6 +280,7 @@ def main(argv):
         "distribution": dist,
         "known_findings_seen": sorted(knownhits),
         "broken": [list(b) for b in broken],
+        "phase_seconds": phases,
         "exhaustive": bool(getattr(mod, "EXHAUSTIVE", {}).get(tier, False)),
     }
     if coqchk_note:
